@@ -87,3 +87,59 @@ func splitGlobal(short string) (pkgPath, name string) {
 	}
 	return pp, short[i+1:]
 }
+
+// globalStringListLit evaluates a package-level `var X = []string{c0, c1, ...}` (constants only) from the syntax tree; ok is false
+// when the variable is not such a literal or is assigned anywhere else in the package.
+func globalStringListLit(p *Prog, pkgPath, name string) (vals []string, ok bool) {
+	pk := p.All[pkgPath]
+	if pk == nil {
+		return nil, false
+	}
+	obj := pk.Types.Scope().Lookup(name)
+	if obj == nil {
+		return nil, false
+	}
+	found, reassigned := false, false
+	for _, f := range pk.Syntax {
+		ast.Inspect(f, func(nd ast.Node) bool {
+			switch x := nd.(type) {
+			case *ast.ValueSpec:
+				for i, id := range x.Names {
+					if pk.TypesInfo.Defs[id] != obj || i >= len(x.Values) {
+						continue
+					}
+					cl, isCL := x.Values[i].(*ast.CompositeLit)
+					if !isCL {
+						continue
+					}
+					good := true
+					var out []string
+					for _, e := range cl.Elts {
+						tv, has := pk.TypesInfo.Types[e]
+						if !has || tv.Value == nil || tv.Value.Kind() != constant.String {
+							good = false
+							break
+						}
+						out = append(out, constant.StringVal(tv.Value))
+					}
+					if good {
+						vals, found = out, true
+					}
+				}
+			case *ast.AssignStmt:
+				for _, l := range x.Lhs {
+					if id, isID := l.(*ast.Ident); isID && pk.TypesInfo.Uses[id] == obj {
+						reassigned = true
+					}
+					if ix, isIx := l.(*ast.IndexExpr); isIx {
+						if id, isID := ix.X.(*ast.Ident); isID && pk.TypesInfo.Uses[id] == obj {
+							reassigned = true
+						}
+					}
+				}
+			}
+			return true
+		})
+	}
+	return vals, found && !reassigned
+}
